@@ -77,7 +77,7 @@ class Run:
             k["count"] += 1
             return
         if len(self.violations) < 50:
-            self.violations.append({"what": what, "input": inp, "expected": expected, "observed": observed})
+            self.violations.append({"what": what, "input": inp, "expected": expected, "observed": observed, "seed": self.seed})
         else:
             self.dist["violations_not_recorded"] += 1
 
@@ -131,7 +131,7 @@ def finish(run, spec, proof, sw):
         replay_n += 1
         path = write_replay(prop, replay_n, {"property": prop, "kind": "property-violation-on-implementation",
                                              "what": v["what"], "input": v["input"], "expected": v["expected"],
-                                             "observed": v["observed"], "seed": run.seed, "tier": run.tier})
+                                             "observed": v["observed"], "seed": v.get("seed", run.seed), "tier": run.tier})
         lines.append("VIOLATION property={} replay={}".format(prop, os.path.relpath(path, VERIF)))
         exit_code = 1
     if not run.violations and (broken or run.disagreements):
